@@ -9,7 +9,7 @@ LEVEL = 'fault_enumeration'
 EPS = 0.001
 RULE = ('operation in {connect without auth / with a signature / waiting for the public key to be accepted, shell, exec_out, streaming_shell, root, reboot, list, stat, pull, pull with callback, '
         'push of 1 WRTE, push of several WRTEs} x EVERY device->host packet index the operation awaits x stall kind {silence, end-of-stream (empty reads forever), trickle (first 1/23/24/size-1 '
-        'bytes of the awaited packet one per 0.9 x transport timeout, then silence), endless traffic for another stream, endless unexpected packets on this stream, a WRTE on this stream in place of the awaited packet followed by another one for every OKAY the host sends} (plus: endless output on this stream for the operations that take a whole-command limit) x timeout grid transport '
+        'bytes of the awaited packet one per 0.9 x transport timeout, then silence), endless traffic for another stream, endless unexpected packets on this stream, a WRTE on this stream in place of the awaited packet followed by another one for every OKAY the host sends, the same with zero-length WRTEs} (plus: endless output on this stream for the operations that take a whole-command limit) x timeout grid (incl. a device-level default transport timeout of 30 s with no per-call value) transport '
         '{None, 0, 0.01, 0.5} x read {-1, 0, 0.05, 1} x total {None, 0, 0.02, 2} (auth {0.05, 1} for connect), virtual clock with 1 ms per transport call; oracle: the call raises AdbTimeoutError or '
         'the transport timeout class, never returns a result, never blocks forever, the transport-call watchdog is not exhausted, virtual time from the stall to the raise <= 4 x (read + transport) '
         '+ total + eps x calls, and every timeout handed to the transport <= effective read timeout <= total; non-trivial = every case; distinct = distinct (op, packet, stall, timeouts, twin)')
@@ -73,9 +73,12 @@ def run_stall(params, ch):
     before, _n = frames_of(op, twin)[:2]
     cfg = dict(CFG)
     cfg['stall'] = {'frame': before + k, 'kind': params['kind'], 'j': params.get('j', 1)}
-    s = Session(ch, cfg, twin=twin, eps=EPS, max_calls=60000)
+    D = params.get('D')           # the device object's default_transport_timeout_s (used when the call gives none)
+    s = Session(ch, cfg, twin=twin, eps=EPS, max_calls=60000, default_timeout=D)
     try:
         kw = {'transport_timeout_s': T, 'read_timeout_s': R}
+        if T is None and D is not None:
+            T = D
         if op in CONNECTS:
             ckw = dict(CONNECTS[op], **kw)
             ckw['auth_timeout_s'] = auth
@@ -138,6 +141,8 @@ def run_endless(params, ch):
     cfg = dict(CFG)
     dest = {'shell': b'shell:c', 'exec_out': b'exec:c', 'root': b'root:'}[op]
     cfg['endless'] = [dest]
+    if params.get('empty'):
+        cfg['endless_empty'] = True
     s = Session(ch, cfg, twin=twin, eps=EPS, max_calls=60000)
     try:
         s.op(('connect',))
@@ -165,7 +170,7 @@ def run_endless(params, ch):
 
 
 def stalls(tier='quick'):
-    out = [{'kind': 'silence'}, {'kind': 'eof'}, {'kind': 'other'}, {'kind': 'unexpected'}, {'kind': 'wrte'}]
+    out = [{'kind': 'silence'}, {'kind': 'eof'}, {'kind': 'other'}, {'kind': 'unexpected'}, {'kind': 'wrte'}, {'kind': 'wrte0'}]
     out += [{'kind': 'trickle', 'j': j} for j in ((1, 23, 24, -1) if tier == 'quick' else (1, 2, 12, 23, 24, 25, -2, -1))]
     return out
 
@@ -186,7 +191,7 @@ def parts(tier):
             for k in range(n):
                 for stl in stalls(tier):
                     awaited = frames_of(op, twin)[2][k]
-                    if stl['kind'] == 'wrte' and not (awaited == b'OKAY' or (awaited == b'CLSE' and op in ('list', 'stat', 'pull', 'pull-cb', 'push1', 'push3'))):
+                    if stl['kind'] in ('wrte', 'wrte0') and not (awaited == b'OKAY' or (awaited == b'CLSE' and op in ('list', 'stat', 'pull', 'pull-cb', 'push1', 'push3'))):
                         continue      # a WRTE where data may still come (shell output) is progress, not a stall
                     for T in Ts:
                         for R in Rs:
@@ -194,6 +199,8 @@ def parts(tier):
                                 if tier == 'quick' and twin == 'async' and (T, R) not in ((None, 0.05), (0.01, 1), (0.5, 0.05), (0, 0)):
                                     continue
                                 sc.append(dict(stl, op=op, twin=twin, k=k, T=T, R=R, total=total))
+                                if T is None and stl['kind'] in ('silence', 'other') and R > 0:
+                                    sc.append(dict(stl, op=op, twin=twin, k=k, T=T, R=R, total=total, D=30))      # a large device-level default, no per-call transport timeout
     out = [Part('stream-ops', sc, run_stall, what='stream operations: every awaited packet x stall kind x timeout grid', bound='%d stalls' % len(sc), exhaustive=(tier == 'thorough'))]
     sc = []
     for twin in twins:
@@ -201,7 +208,7 @@ def parts(tier):
             n = frames_of(op, twin)[1]
             for k in range(n):
                 for stl in stalls(tier):
-                    if stl['kind'] == 'wrte':
+                    if stl['kind'] in ('wrte', 'wrte0'):
                         continue
                     for T in Ts:
                         for R in Rs:
@@ -209,5 +216,6 @@ def parts(tier):
                                 sc.append(dict(stl, op=op, twin=twin, k=k, T=T, R=R, auth=auth))
     out.append(Part('connect', sc, run_stall, what='connect(): every awaited reply x stall kind x timeout grid', bound='%d stalls' % len(sc)))
     sc = [{'op': op, 'twin': t, 'T': T, 'R': R, 'total': total} for op in ('shell', 'exec_out', 'root') for t in twins for T in Ts for R in Rs for total in totals if total is not None]
+    sc += [dict(x, empty=True) for x in sc]        # the same with zero-length writes (a keep-alive that carries no data)
     out.append(Part('endless-output', sc, run_endless, what='a command whose output never ends: the whole-command limit must end it', bound='%d cases' % len(sc), min_outcomes=1))
     return out
